@@ -28,6 +28,9 @@ CONFIG = dict(
         "Rbgp.Gr.Helper.Props.no_llgr_dropped",
         "Rbgp.Gr.Helper.Props.ineligible_class",
         "Rbgp.Gr.Helper.Props.ineligible_no_helper",
+        "Rbgp.Gr.Helper.Props.negotiated_within_session",
+        "Rbgp.Gr.Helper.Props.forced_down_ends_helper",
+        "Rbgp.Gr.Helper.Props.bounded_lifetime_wait",
         "Rbgp.Gr.Helper.Props.bounded_lifetime_gr",
         "Rbgp.Gr.Helper.Props.bounded_lifetime_llgr",
         "Rbgp.Gr.Helper.Props.bounded_lifetime_eor",
@@ -36,12 +39,12 @@ CONFIG = dict(
     profiles=["debug"],
     n_quick=2000, n_thorough=60000, shards=12,
     nontrivial_re=r"\(\d \d t |\(\d \d f t ",
-    rule="histories of one peer over 3 families x 3 prefixes: session established (any session family set, negotiated GR "
-         "subset with/without N-bit, negotiated LLGR set incl. LLGR-only families, local speaker in selection deferral or "
-         "not), announcements (with/without NO_LLGR / LLGR_STALE community), End-of-RIB per family, session down for every "
+    rule="histories of one peer over 3 families x 3 prefixes: session established (the peer's MP-BGP families, its GR "
+         "capability with/without N-bit and its LLGR capability — mostly subsets of the MP families, sometimes naming "
+         "families without MP-BGP, empty, or with repeats —, local speaker in selection deferral or not), announcements (with/without NO_LLGR / LLGR_STALE community), End-of-RIB per family, session down for every "
          "SessionDownReason (I/O, hold timer, remote/local NOTIFICATION with Cease / hard reset / non-Cease codes, FSM "
          "error, admin shutdown), a connection ending before Established, restart-timer and per-family LLGR-timer expiry, "
-         "force_down, disable/enable, generated as session cycles with random events mixed in plus a pure-noise stream; plus "
+         "ShutdownPeer, DisablePeer/EnablePeer, real-time `wait` in 1 s-timer cases (8 quick / 60 thorough), generated as session cycles with random events mixed in plus a pure-noise stream; plus "
          "the pure GrState machine: every reachable model state x every input (BFS in the model, 594 cases) and random "
          "input sequences; non-trivial = some stale or LLGR-stale route was observed; distinct = distinct case line",
     expect_tokens=["(rib (", "t (llt", "(llt 0", "(llt 1", "(llt 2", "start-timer", "stop-timer", "del-stale", "start-llgr",
@@ -49,18 +52,20 @@ CONFIG = dict(
     trusted_base=["model Rbgp/Gr/Helper/Model.lean of daemon/src/gr.rs GrState + the helper-side glue of event/mod.rs + the "
                   "per-peer RIB operations of table_manager.rs / table/src/lib.rs (stale marks kept per path instead of per "
                   "shared Source: every marking happens after the owning session ended)",
-                  "harness/daemon/c10.rs calls the real PeerSession::{process_effects, finish_session}, apply_disconnect, "
-                  "PeerContext::{force_down, fire_gr_timer} and the real timer tasks in the order the session task would; "
-                  "run_select's mapping CloseReason -> SessionDownReason::AdminShutdown and handle_message's "
-                  "`if negotiated_gr.is_some()` guard for End-of-RIB are transcribed (3 lines)"],
+                  "harness/daemon/c10.rs calls the real code in the order the session task would: establishment = "
+                  "PeerSession::apply_outputs on the FSM's SessionNegotiated/SessionEstablished outputs (PeerCodec::negotiate, "
+                  "negotiate_gr/negotiate_llgr on real capabilities, on_established) + process_effects; announcements = "
+                  "rx_update; session end = finish_session + apply_disconnect (also for a never-established connection); "
+                  "shutdown/disable/enable = the real gRPC handlers; timer expiry = the real expiry handlers (called "
+                  "directly with forced=false) and, in `glue-short` cases, the real timer tasks elapsing after 1 s of real "
+                  "time. Transcribed: run_select's mapping CloseReason -> SessionDownReason::AdminShutdown (applied only if "
+                  "the close reason really arrived on the session's close channel) and handle_message's "
+                  "`if negotiated_gr.is_some()` guard for End-of-RIB (3+1 lines; both need a TCP stream)"],
     modelled_not_verified=["timer tasks (tokio::time::timeout on a oneshot) — expiry is an explicit event; durations are not "
                            "modelled", "RTC state machine calls inside apply_disconnect / gr_restart_timer_expired",
                            "route ranking and distribution of the resulting NlriChanges (C02/C06/C01)"],
     assumptions=["the events of one peer are serialised by its PeerContext mutex; a session's tear-down (finish_session "
-                 "+ apply_disconnect) is treated as one atomic step, and a new session of the peer is not established in between",
-                 "negotiated GR / LLGR family sets are non-empty subsets of the session's families (negotiate_gr/negotiate_llgr "
-                 "return None for an empty intersection; a peer advertising GR for a family it has no MP-BGP capability for is "
-                 "outside the model: its stale routes of that family would wait for an End-of-RIB that cannot come)"],
+                 "+ apply_disconnect) is treated as one atomic step, and a new session of the peer is not established in between"],
 )
 
 NF, NX = 3, 3
@@ -91,29 +96,21 @@ def gen_reason(r):
 
 
 def gen_est(r):
+    """peer capabilities: MP families, GR capability (families, N-bit), LLGR capability families; the GR / LLGR lists
+    are mostly subsets of the MP families, sometimes name families without MP-BGP, sometimes are empty or repeat one"""
     fams = subset(r, range(NF), 2, 3)
     if not fams and r.chance(9, 10):
         fams = [r.below(NF)]
-    w = r.below(10)
-    if w < 1 or not fams:
-        gr = "none"
-    else:
-        g = subset(r, fams, 2, 3)
-        if not g:
-            g = [r.pick(fams)]
-        if r.chance(1, 10):
+    def caplist(num, den):
+        w = r.below(10)
+        g = subset(r, fams, num, den) if w < 7 else subset(r, range(NF), 1, 2)
+        if not g and r.chance(5, 6):
+            g = [r.pick(fams)] if fams else [r.below(NF)]
+        if g and r.chance(1, 10):
             g = g + [r.pick(g)]
-        gr = "(some (%s %s))" % (fl(g), b(r.chance(1, 2)))
-    w = r.below(10)
-    if w < 4 or not fams:
-        llgr = "none"
-    else:
-        g = subset(r, fams, 1, 2)
-        if not g:
-            g = [r.pick(fams)]
-        if r.chance(1, 10):
-            g = g + [r.pick(g)]
-        llgr = "(some %s)" % fl(g)
+        return g
+    gr = "none" if r.chance(1, 10) else "(some (%s %s))" % (fl(caplist(2, 3)), b(r.chance(1, 2)))
+    llgr = "none" if r.chance(2, 5) else "(some %s)" % fl(caplist(1, 2))
     return "(est %s %s %s %s)" % (fl(fams), gr, llgr, b(r.chance(1, 12)))
 
 
@@ -195,6 +192,24 @@ def gen_pure(r):
     return "(pure %s)" % " ".join(ins)
 
 
+def gen_short(r):
+    """1 s restart / LLGR time; `wait` lets every armed timer elapse for real (1.25 s): the natural-expiry path"""
+    evs = [gen_est(r)]
+    fams = [int(x) for x in evs[0][6:evs[0].index(")")].split()] or [0]
+    for _ in range(1 + r.below(3)):
+        evs.append("(ann %d %d %s f)" % (r.pick(fams), r.below(NX), b(r.chance(1, 3))))
+    evs.append("(down %s)" % ("io" if r.chance(3, 4) else gen_reason(r)))
+    if r.chance(1, 3):
+        evs.append("attempt")
+    evs.append("wait")
+    k = r.below(3)
+    if k == 0:
+        evs.append("wait")
+    elif k == 1:
+        evs.append(gen_est(r)); evs.append("(eor %d)" % r.pick(fams)); evs.append("(down io)"); evs.append("wait")
+    return "(glue-short %s)" % " ".join(evs)
+
+
 def gen_noise(r):
     return "(glue %s)" % " ".join(rand_ev(r) for _ in range(2 + r.below(24)))
 
@@ -212,6 +227,7 @@ def pure_bfs():
 def gen(seed, n, tier):
     r = Rng(seed * 1000003 + 10)
     cases = pure_bfs()
+    cases += [gen_short(r) for _ in range(8 if tier == "quick" else 60)]
     target = len(cases) + n
     while len(cases) < target:
         w = r.below(12)
